@@ -163,7 +163,11 @@ async def next_step_settled(sim: SimRunner, world: World) -> bool:
         if sim.next_steps and sim.next_steps[0] == sim.progress.time:
             return True
         else:
-            await_time = sim.next_steps[0] if sim.next_steps else TieredTime(world.until) + sim.from_world_time
+            # The progress never goes beyond the end of the simulation, so
+            # we must not wait for a step that has been scheduled (by a
+            # trigger) for a time after the end.
+            end = TieredTime(world.until) + sim.from_world_time
+            await_time = min(sim.next_steps[0], end) if sim.next_steps else end
             tasks = [
                 asyncio.create_task(sim.progress.has_reached(await_time)),
                 asyncio.create_task(sim.newer_step.wait()),
